@@ -220,6 +220,8 @@ def oracle_parse(case, obs):
 def gen_ops(rng, tier):
     for _ in range(200 if tier == "quick" else 6000):
         ns, m = rng.choice([1, 2, 3, 4, 5, 6, 6, 7]), rng.randint(1, 3)
+        if rng.random() < 0.05:
+            ns, m = rng.randint(17, 40), rng.randint(1, 12)  # medium sizes
         data = [[rng.choice([-9.0, 0.0, 1.0, 2.5, -3.0, 7.0, 1e-9 * rng.randint(1, 9), 1e-12 * rng.randint(1, 9), 170.0 + rng.randint(0, 9)]) for _ in range(m)] for _ in range(ns)]
         if rng.random() < 0.3:
             j = rng.randrange(m)
